@@ -22,7 +22,7 @@ func c14Gen(tier string, rng *rand.Rand) []c13Case {
 			for _, w := range []bool{false, true} {
 				mode := "conhash"
 				if k == "modhash" {
-					mode = []string{"plain", "mixed", "ratio"}[i%3]
+					mode = []string{"plain", "mixed", "ratio"}[(i+i/6)%3] // not in step with the scripted history i%6
 				}
 				c := c13GenHistory(rng, k, w, mode)
 				c13AddRingCodes(&c)
